@@ -25,7 +25,7 @@ from .events import (
     Trailers,
 )
 from .http_stream import HTTPStream
-from .ws_stream import WSStream
+from .ws_stream import ASGIWebsocketState, WSStream
 from ..config import Config
 from ..events import Closed, Event, RawData, Updated
 from ..typing import AppWrapper, ConnectionState, Event as IOEvent, TaskGroup, WorkerContext
@@ -299,8 +299,13 @@ class H2Protocol:
                 await self._flush()
             elif isinstance(event, StreamClosed):
                 buffer = self.stream_buffers.get(event.stream_id)
+                stream = self.streams.get(event.stream_id)
                 if (
-                    isinstance(self.streams.get(event.stream_id), HTTPStream)
+                    (
+                        isinstance(stream, HTTPStream)
+                        # or a response to a WebSocket handshake
+                        or getattr(stream, "state", None) is ASGIWebsocketState.RESPONSE
+                    )
                     and buffer is not None
                     and not buffer._complete
                 ):
@@ -310,6 +315,14 @@ class H2Protocol:
                         event.stream_id, h2.errors.ErrorCodes.INTERNAL_ERROR
                     )
                     await self._flush()
+                    # Nothing more is sent on the stream, which is otherwise
+                    # only forgotten when the last of its data has been
+                    await buffer.close()
+                    del self.stream_buffers[event.stream_id]
+                    try:
+                        self.priority.remove_stream(event.stream_id)
+                    except priority.MissingStreamError:
+                        pass
                 if event.stream_id not in self.streams:
                     # Already closed (e.g. reset by the client), this is
                     # only its app finishing: the connection's idle state
